@@ -41,8 +41,9 @@ class StepController(fsint.BaseController):
     """Counts/logs mutating steps; optionally faults at one index or crashes at one index."""
 
     def __init__(self, root, fault_at=None, fault_kind=None, crash_at=None, site_filter=None, second_fault_at=None,
-                 all_ops=False):
+                 all_ops=False, torn=None):
         super().__init__(root)
+        self.torn = torn  # bytes of the write at crash_at that still reach the file before the crash (None: none)
         self.all_ops = all_ops  # number read-only calls as steps too (asynchronous KeyboardInterrupt sites)
         self.steps = []  # (op, relpath, n)
         self.fault_at = fault_at
@@ -75,6 +76,11 @@ class StepController(fsint.BaseController):
         idx = len(self.steps)
         self.steps.append((op, self.rel(path), info.get("n")))
         if self.crash_at is not None and idx == self.crash_at:
+            if self.torn:
+                if op != "write" or "file" not in info:
+                    raise RuntimeError("torn write requested at a step that is not a write: %r" % (self.steps[-1],))
+                fsint.raw_write(info["file"], bytes(info["data"])[: self.torn])
+                self.dirty[self.rel(path)] = self.dirty.get(self.rel(path), 0) + self.torn
             self.crashed = True
             raise Crash()
         if self.fault_at is not None and (idx == self.fault_at or idx == self.second_fault_at):
